@@ -335,9 +335,43 @@ func treeCase(r *sim.R, k int) {
 		r.StateOps += 2
 		return
 	}
-	r.Tracef("NewFrom(%s)", describe(in))
+	// one Config object as the value of two keys, with a dotted key extending the first: the object
+	// is built afresh for every execution (a change that writes into it must not leak between them)
+	embedKey := ""
+	if detail["overlap"] == "false" && t.Chance(1, 5, "embed-config-twice") {
+		for _, kk := range a.Keys() {
+			if c := a.D[kk]; c.PureDict() {
+				embedKey = kk
+				break
+			}
+		}
+	}
+	mk := func() interface{} { return in }
+	if embedKey != "" {
+		plain := world.Render(a, world.RepGeneric, nil).(map[string]interface{})
+		sub := plain[embedKey]
+		mk = func() interface{} {
+			save := r.Order
+			r.Order = sim.OrderSorted
+			x, err := ucfg.NewFrom(sub, opts...)
+			r.Order = save
+			if err != nil {
+				return plain
+			}
+			m := map[string]interface{}{}
+			for kk, v := range plain {
+				m[kk] = v
+			}
+			m[embedKey], m["zz"], m[embedKey+".port"] = x, x, uint64(1)
+			return m
+		}
+		r.Probe("order: one Config object under two keys next to a dotted key extending it")
+		r.Tracef("NewFrom(%s with %q and \"zz\" holding one Config object, plus %q)", describe(plain), embedKey, embedKey+".port")
+	} else {
+		r.Tracef("NewFrom(%s)", describe(in))
+	}
 	schedules(r, k, "NewFrom", detail, true, func() Outcome {
-		c, err := ucfg.NewFrom(in, opts...)
+		c, err := ucfg.NewFrom(mk(), opts...)
 		if err != nil {
 			return Outcome{Kind: ErrKind(err)}
 		}
